@@ -49,6 +49,9 @@ class PLISTNode(ContainerNode):
     def __len__(self) -> int:
         return 1
 
+    def __repr__(self):
+        return f"{self.__class__.__name__}({self.root!r})"
+
 
 def build_tree(path: str, options: Optional[BuildOptions] = None, *args, **kwargs) -> PLISTNode:
     """Constructs a PLIST tree from an PLIST file."""
